@@ -14,6 +14,7 @@ class State:
         self.path = ""
         self.clock0 = z3.Int(world.fresh_name("clock"))
         self.clock_off = 0
+        self.entry_clock = self.clock0      # allocation clock when the function under verification is entered
         self.pre = None     # entry snapshot (for old())
         self.ghost = {}
         self.inst = set()   # contract instances / typed reads whose facts are already in pc
@@ -30,6 +31,7 @@ class State:
         s.path = self.path
         s.clock0 = self.clock0
         s.clock_off = self.clock_off
+        s.entry_clock = self.entry_clock
         s.pre = self.pre
         s.ghost = dict(self.ghost)
         s.inst = set(self.inst)
@@ -51,7 +53,22 @@ class State:
 
     def field_array(self, key, sort):
         if key not in self.heap:
-            self.heap[key] = z3.Const(f"H0:{key[0].rsplit('.',1)[-1]}.{key[1]}", z3.ArraySort(self.w.Ref, sort))
+            h0 = z3.Const(f"H0:{key[0].rsplit('.',1)[-1]}.{key[1]}", z3.ArraySort(self.w.Ref, sort))
+            self.heap[key] = h0
+            # heap closure at entry: an object that exists at entry references only objects that exist at entry
+            # (nothing can point to an object that has not been allocated yet)
+            w = self.w
+            r = z3.Const(w.fresh_name("hc"), w.Ref)
+            c0 = self.entry_clock
+            if sort == w.Ref:
+                x = z3.Select(h0, r)
+                self.pc.append(z3.ForAll([r], z3.Implies(w.born(r) < c0, z3.Or(x == w.null, w.born(x) < c0)), patterns=[z3.Select(h0, r)]))
+            elif sort in [w.seq_sort(w.Ref)] if hasattr(w, "seq_sort") else False:
+                from .world import SAt, SLen
+                j = z3.Int(w.fresh_name("hj"))
+                x = SAt(z3.Select(h0, r), j)
+                self.pc.append(z3.ForAll([r, j], z3.Implies(z3.And(w.born(r) < c0, 0 <= j, j < SLen(z3.Select(h0, r))),
+                                                            z3.Or(x == w.null, w.born(x) < c0)), patterns=[x]))
         return self.heap[key]
 
     def version(self, key):
